@@ -341,6 +341,14 @@ func codeFenceLength(source []byte, block *commonmark.Block) int {
 							state = 0
 						}
 					}
+				case '\t':
+					// A tab at the start of a line indents it by four columns.
+					// After a run of fence characters it is trailing whitespace,
+					// which a closing fence may have.
+					if state == -1 {
+						indent = codeBlockIndentLimit
+						state = 0
+					}
 				case '\n':
 					if state > minFence {
 						minFence = state
